@@ -30,7 +30,12 @@ type Scenario struct {
 	Cfg     Cfg      `json:"cfg"`
 	Init    []Op     `json:"init"`
 	Threads [][]Call `json:"threads"`
+	// SharedBatch: one Batch is created before the threads start and used by all of them (calls bput bdel bget
+	// bcommit); whoever is left commits it after the threads have finished
+	SharedBatch bool `json:"shared_batch,omitempty"`
 }
+
+var sharedBatch *kv.Batch
 
 func (s Scenario) String() string {
 	var ts []string
@@ -87,6 +92,10 @@ func runScenario(sc Scenario, prefix []int8, epilogueRestart bool) *ExecResult {
 		}
 	}
 	db := w.DB
+	sharedBatch = nil
+	if sc.SharedBatch {
+		sharedBatch = db.NewBatch(kv.BatchOptions{})
+	}
 	recs := make([][]CallRec, len(sc.Threads))
 	fns := make([]func(), len(sc.Threads))
 	for ti := range sc.Threads {
@@ -119,6 +128,14 @@ func runScenario(sc Scenario, prefix []int8, epilogueRestart bool) *ExecResult {
 	}
 	for _, p := range ex.Sched.Panics {
 		if p != "" {
+			w.Dead = true
+			return ex
+		}
+	}
+	if sharedBatch != nil {
+		// the batch holds the database lock until it is committed
+		if err := w.guard(func() error { return sharedBatch.Commit() }); err != nil && errClass(err) == "panic" {
+			ex.Sched.Panics = append(ex.Sched.Panics, "final Commit of the shared batch: "+panicDetail(err))
 			w.Dead = true
 			return ex
 		}
@@ -198,6 +215,21 @@ func doCall(db *kv.DB, c Call, ti, ci int, r *CallRec) {
 		} else {
 			r.Err = errClass(e2)
 		}
+	case "bput":
+		r.Val = val
+		r.Err = batchErr(sharedBatch.Put([]byte(c.Key), []byte(val)))
+	case "bdel":
+		r.Err = batchErr(sharedBatch.Delete([]byte(c.Key)))
+	case "bget":
+		v, err := sharedBatch.Get([]byte(c.Key))
+		r.Err = batchErr(err)
+		if err == nil {
+			r.Val, r.Found = string(v), true
+		} else if errors.Is(err, kv.ErrKeyNotFound) {
+			r.Err = "nil"
+		}
+	case "bcommit":
+		r.Err = batchErr(sharedBatch.Commit())
 	case "merge":
 		err := db.Merge()
 		r.Err = errClass(err)
@@ -205,6 +237,14 @@ func doCall(db *kv.DB, c Call, ti, ci int, r *CallRec) {
 			r.Err = "nil"
 		}
 	}
+}
+
+// batchErr: a call on a batch that another thread has already committed is rejected with ErrBatchCommitted - valid.
+func batchErr(err error) string {
+	if errors.Is(err, kv.ErrBatchCommitted) {
+		return "nil"
+	}
+	return errClass(err)
 }
 
 // exploreSchedules runs the iterative-context-bounding DFS: all schedules with at most bound
